@@ -318,6 +318,51 @@ def run(ctx):
             shutil.rmtree(tmp, ignore_errors=True)
     streams.append(p)
 
+    # the directory disappears between stores (cleaned up, rotated away, re-mounted) in a long running process:
+    # "the directory is created when missing" holds for every store, not only for the first one
+    lc = Stream("directory-lifecycle")
+    from senaite.astm import utils
+    for _ in range(300 if ctx.thorough else 40):
+        tmp = tempfile.mkdtemp(prefix="astm-c16-")
+        d = os.path.join(tmp, "out", "sub") if r.random() < 0.5 else os.path.join(tmp, "out")
+        ops = []
+        for _i in range(r.choice([2, 3, 5, 8])):
+            ops.append(r.choice(["store", "store", "store", "remove", "rename"]))
+        ops.append("store")
+        FakeDateTime.script = [BASE]
+        orig_dt = utils.datetime
+        utils.datetime = FakeDateTime
+        live, err, k = [], None, 0
+        try:
+            for op in ops:
+                if op == "store":
+                    m = r.choice([b"msg-%d" % k, "text-%d-\u00e9" % k])
+                    k += 1
+                    utils.write_message(m, d)
+                    live.append(m)
+                elif os.path.isdir(d):
+                    if op == "remove":
+                        shutil.rmtree(d)
+                    else:
+                        os.rename(d, d + ".old%d" % k)
+                        k += 1
+                    live = []
+        except Exception as e:  # noqa
+            err = repr(e)
+        finally:
+            utils.datetime = orig_dt
+        case = {"ops": ops, "nested_directory": d.endswith("sub")}
+        lc.case(case, nontrivial=any(o != "store" for o in ops))
+        if err:
+            lc.fail(dict(case, error=err), "write_message raised %s after the directory had been removed / renamed" % err,
+                    "lifecycle/raises")
+        else:
+            bad = oracle({}, live, listing(d) if os.path.isdir(d) else {}, False, d)
+            if bad:
+                lc.fail(case, bad[1], "lifecycle/" + bad[0])
+        shutil.rmtree(tmp, ignore_errors=True)
+    streams.append(lc)
+
     return streams
 
 
